@@ -4,6 +4,7 @@ import TF.Model.Merkle
 import TF.Spec.Merkle
 import TF.Model.HashTip5
 import TF.Gen.MerkleLoops
+import TF.Gen.MerkleIndex
 /-!
 driver handlers for the families `mt` (C04: inclusion proofs, accessors) and `mtb` (C10: construction).
 Digests are lists of five canonical values, the hash is the executable Tip5 instance `TF.Hash.hashPair`.
@@ -65,7 +66,7 @@ def treeReply (t : Tree Dg) (ds : List Dg) : String :=
     s!"ok:{h}|{t.numLeafs}|{fmtList r}|{fmtDigests t.nodes}|{fmtDigests t.leafs}" ++ (if specOk then "" else "!spec")
   | _, _ => "panic"
 
-def mt : Handler
+def mtModel : Handler
   | "verify", [.nat h, ls, au, r] => do
     let ls ← Arg.leafs? ls; let au ← Arg.digests? au; let r ← Arg.digest? r
     pure (verifyReply ⟨h, ls, au⟩ r)
@@ -98,6 +99,46 @@ def mt : Handler
       | .err _, _ => "err"
       | _, _ => "panic")
   | _, _ => none
+
+/-! ### P03: the index arithmetic regenerated from source (`TF/Gen/MerkleIndex.lean`) evaluated next to the hand model:
+`MerkleTree::{leaf, node, num_leafs, height}` on the built tree's node vector, `PartialMerkleTree::num_leafs` on the height of
+every proof that is verified / expanded.  Digests are opaque for these functions. -/
+open TF.Gen.Loops in
+def mtGen : Handler
+  | "leaf", [ds, is] => do
+    let ds ← Arg.digests? ds; let is ← is.natList?
+    pure (withTree ds fun t =>
+      if (is.all fun i => mt_leaf_ok t.nodes i) && mt_num_leafs_ok t.nodes && mt_num_leafs t.nodes == t.numLeafs &&
+          fmtRes toString t.height == (if mt_height_ok t.nodes then s!"ok:{mt_height t.nodes}" else "panic") then
+        "ok:[" ++ ",".intercalate (is.map fun i => fmtOptD (mt_leaf t.nodes i)) ++ "]"
+      else "panic-or-accessor-differs")
+  | "node", [ds, is] => do
+    let ds ← Arg.digests? ds; let is ← is.natList?
+    pure (withTree ds fun t =>
+      if is.all fun i => mt_node_ok t.nodes i then
+        "ok:[" ++ ",".intercalate (is.map fun i => fmtOptD (mt_node t.nodes i)) ++ "]"
+      else "panic")
+  | _, _ => none
+
+/-- `PartialMerkleTree::num_leafs` of a proof height: regenerated vs hand model (`none` = they agree) -/
+def numLeafsMismatch (h : Nat) : Option String :=
+  let g := if TF.Gen.Loops.pmt_num_leafs_ok h then
+    (match TF.Gen.Loops.pmt_num_leafs h with | .ok n => s!"ok:{n}" | .error _ => "err") else "panic"
+  let m := fmtRes toString (numLeafs h)
+  if g == m then none else some ("GEN-MISMATCH pmt_num_leafs gen=" ++ g ++ " model=" ++ m)
+
+/-- the family handler: the hand model's reply; where the regenerated code has an opinion it must be the same -/
+def mt : Handler := fun op args =>
+  let hm : Option String := match op, args with
+    | "verify", (.nat h) :: _ => numLeafsMismatch h
+    | "paths", (.nat h) :: _ => numLeafsMismatch h
+    | _, _ => none
+  match hm with
+  | some e => some e
+  | none =>
+    match mtModel op args, mtGen op args with
+    | some m, some g => some (if g == m then m else "GEN-MISMATCH gen=" ++ g ++ " model=" ++ m)
+    | m, _ => m
 
 def cutoffArg : Arg → Option Nat
   | .nat c => if c < USIZE then some c else none
